@@ -31,6 +31,16 @@ CHECKS = {
         "behaviours incl. the full 10-try retry budget) is executed on the real proxy objects and the emitted datagrams, future states and message flags compared with the model.",
    note="Trusted: TLC, the datagram projection (real deserializer), the virtual clock shim, the scripted drop addon; tracker eviction is out of scope here (C04).",
    ref="6/C05"),
+ "C07": dict(
+   technique="TLA+ spec (AddonDispatch.tla: one message through every hook point, ownership machine fresh/queued/sent/dropped, every assignment of "
+             "hook behaviours as initial states; invariants AtMostOnce, ExactlyOnceUnlessClaimed, NoResurrection, Isolation, Bookkeeping) model-checked by TLC; "
+             "B1 replay of every configuration's terminal observation through the real proxy with scripted addons/subscribers, plus a follow-up message",
+   text="TLC enumerates every assignment of behaviours (return falsy/truthy, raise, take, take+send copy, drop, send, double operations, mutate) to the packet- and "
+        "message-level hooks of up to three addons and to session/region subscribers, for both directions, reliability and command-channel chat, and checks the "
+        "at-most-once / exactly-once-unless-claimed / no-resurrection / isolation invariants on the pipeline model; each configuration is executed on the real "
+        "InterceptingLLUDPProxyProtocol and the wire emissions, refused operations, invoked hooks, logging and final ownership are compared with the model.",
+   note="Trusted: TLC, the scripted addon vocabulary (take/send/drop/mutate/return/raise), content-marker classification of emissions; hooks invoked beyond the model's set are tolerated.",
+   ref="6/C07"),
 }
 
 PENDING = {}
